@@ -1,6 +1,7 @@
 #!/bin/bash
 # mutest.sh <patch.diff> <PROP> [tier] [budget]: run a check against a scratch worktree of /repo HEAD with the patch applied.
 set -u
+"$(dirname "$0")"/trimcache.sh
 patch=$(readlink -f "$1"); prop=$2; tier=${3:-quick}; budget=${4:-}
 wt=$(mktemp -d /tmp/mt-XXXXXX); rmdir "$wt"
 git -C /repo worktree add --detach "$wt" HEAD >/dev/null 2>&1 || { echo "worktree failed"; exit 2; }
